@@ -69,9 +69,13 @@ func Reset(prefix []int, active bool) {
 
 var fact = []int{1, 1, 2, 6, 24}
 
+// FullPermutations: maps with at most this many entries are iterated in every order.
+var FullPermutations = 3
+
 // Keys returns the keys of m: sorted order by default, permuted by the explorer
-// when map orders are explored. All n! orders for n<=4, the n rotations of the
-// sorted order and their reversals beyond that.
+// when map orders are explored. All n! orders for n<=FullPermutations (3 by
+// default, at most 4), the n rotations of the sorted order and their reversals
+// beyond that.
 func Keys[K comparable, V any](m map[K]V) []K {
 	keys := make([]K, 0, len(m))
 	for k := range m {
@@ -82,7 +86,7 @@ func Keys[K comparable, V any](m map[K]V) []K {
 	if !Active || !MapOrder || n < 2 {
 		return keys
 	}
-	if n <= 4 {
+	if n <= FullPermutations && n <= 4 {
 		c := choose(fact[n], "maporder", false)
 		out := make([]K, 0, n)
 		for i := n; i > 0; i-- { // Lehmer decoding
